@@ -121,6 +121,7 @@ structure FreshChunk (E : Nat) (held : List Chunk) (M : Nat) (d : Details) (prev
   align_eq : c.align = d.align
   ptr_eq : c.ptr = c.footer
   nswf_eq : c.footer = c.data + d.nswf
+  nswf_pos : 0 < d.nswf
   ab_eq : c.ab = prevAb + d.nswf
   al_dvd : d.align ∣ c.data
   disj : ∀ h ∈ held, Disj c.data c.size h.data h.size
@@ -185,7 +186,7 @@ theorem newChunk_spec {E held M d reqSz prevAb sz al n0} (s : St)
                    by show 16 ∣ d.size - FOOTER_SIZE; rw [hsz, Nat.add_sub_cancel]; exact hd.nswf_al,
                    by show addr ≤ addr + d.nswf; omega, by rw [hfoot]; exact Nat.le_refl _, hfM,
                    by show addr + d.size ≤ 2 ^ 63; exact k3⟩
-            size_eq := rfl, align_eq := rfl, ptr_eq := hfoot.symm, nswf_eq := hfoot, ab_eq := rfl
+            size_eq := rfl, align_eq := rfl, ptr_eq := hfoot.symm, nswf_eq := hfoot, nswf_pos := hpos, ab_eq := rfl
             al_dvd := Nat.dvd_of_mod_eq_zero k2
             disj := by
               intro h hh
